@@ -41,6 +41,9 @@ def check(lines, ids_only=True):
                 stack = []
             if last_result == 1 and dirty:
                 V.append(('idle-without-stable-notice', n, ln))
+            if last_result == 6 and dirty:
+                # cancel() arrived while a macrostep was under way: the macrostep still completes and must be announced before CANCELLED
+                V.append(('cancelled-without-stable-notice-for-completed-macrostep', n, ln))
             if last_result == -1:
                 finished = True
             continue
